@@ -45,9 +45,10 @@ Theorem C08_order : forall c es T osp olen,
   subseq (snd (htick c (hfinal c (hinit c) es) T osp olen)) (valid_hist es).
 Proof. exact passed_in_arrival_order. Qed.
 
-(* No None / NaN sample ever reaches the function (every history). *)
+(* No None / NaN sample ever reaches the function (every history); infinities and huge values are values. *)
 Theorem C08_no_invalid : forall c es T osp olen x,
-  In x (snd (htick c (hfinal c (hinit c) es) T osp olen)) -> i_kind x = 0 /\ In x (valid_hist es).
+  In x (snd (htick c (hfinal c (hinit c) es) T osp olen)) ->
+  i_kind x <> 1 /\ i_kind x <> 2 /\ In x (valid_hist es).
 Proof. exact passed_all_valid. Qed.
 
 (* Nothing stamped after T (or at/before T - relevance) reaches the function. *)
